@@ -444,7 +444,9 @@ fn need_quotes(string: &str) -> bool {
         ]
         .contains(&string)
         || string.starts_with('.')
+        || string.starts_with("+.")
         || string.starts_with("0x")
+        || string.starts_with("0o")
         || string.parse::<i64>().is_ok()
         || string.parse::<f64>().is_ok()
 }
